@@ -49,6 +49,46 @@ def factor_history(ops, through="direct"):
     return ev
 
 
+def model_factor_history(ops):
+    """the same through a PrecipitateModel: setGrainBoundaryEnergy / setInterfacialEnergy / setNucleationSite followed by
+    reset() + setup() (setup hands the matrix's grain boundary energy to every precipitate); reads are taken from the model's own
+    precipitate parameters and compared with a fresh object"""
+    from . import kwn_drv as K
+    ev = [{"e": "init"}]
+    cur = {"gamma": GAMMAS[0], "gbe": GBES[1], "site": "grain boundaries"}
+    try:
+        cfg = dict(phases=[dict(name="beta", gamma=cur["gamma"], site=cur["site"])], D=1e-16, gb=cur["gbe"], calls=[(1.0, 0.5)])
+        m, th, obs = K.build(cfg)
+        m.setup()
+        n = m.precipitateParameters[0].nucleation
+        float(n.areaFactor)       # the factors have been evaluated once before anything changes
+        for op in ops:
+            if op[0] == "gamma": m.setInterfacialEnergy(op[1], "beta"); cur["gamma"] = op[1]
+            elif op[0] == "gbe": m.setGrainBoundaryEnergy(op[1]); cur["gbe"] = op[1]
+            elif op[0] == "site": m.setNucleationSite(op[1], "beta"); cur["site"] = op[1]
+            else:
+                m.reset(); m.setup()
+                got = float(getattr(m.precipitateParameters[0].nucleation, op[1]))
+                ev.append(rel("C14:cached-factor-follows-setters(model)", "%s after %s" % (op[1], [(o[0], o[1]) for o in ops if o[0] != "read"]), got,
+                              fresh_factor(cur["gamma"], cur["gbe"], cur["site"], op[1]), "eq"))
+    except Exception as ex:  # noqa
+        ev.append({"e": "exception", "msg": "%s: %s" % (type(ex).__name__, str(ex)[:200])})
+    return ev
+
+
+def gen_model_factor_histories():
+    hist = []
+    sites = [s for s in SITES if s not in ("bulk", "dislocations")]
+    for gbe in GBES:
+        for f in ("areaFactor", "volumeFactor", "gbRemoval"):
+            hist.append([("gbe", gbe), ("read", f)])
+            hist.append([("read", f), ("gbe", gbe), ("read", f)])
+    for s2 in sites:
+        hist.append([("read", "volumeFactor"), ("site", s2), ("gbe", 0.0), ("read", "volumeFactor"), ("gbe", 0.12), ("read", "areaFactor")])
+    hist.append([("read", "areaFactor"), ("gamma", GAMMAS[1]), ("read", "areaFactor"), ("gbe", 0.0), ("read", "areaFactor")])
+    return hist
+
+
 def gen_factor_histories(rng, tier):
     setters = [("gamma", g) for g in GAMMAS] + [("gbe", e) for e in GBES] + [("site", s) for s in SITES]
     reads = [("read", f) for f in FACTORS]
@@ -138,6 +178,32 @@ def nucleation_relations():
                 ev.append(rel("C14:Rcrit-equals-sphere", "%s k=%.3f" % (D.name, k), n.Rcrit(dG), 2 * gamma / dG, "eq", rtol=1e-9))
                 Gs = (4 * np.pi / 3) * gamma * (2 * gamma / dG) ** 2
                 ev.append(rel("C14:Gcrit=spherical*volumeFactor/(4pi/3)", "%s k=%.3f" % (D.name, k), n.Gcrit(dG, n.Rcrit(dG)), Gs * float(n.volumeFactor) / (4 * np.pi / 3), "eq", rtol=1e-9))
+    except Exception as ex:  # noqa
+        ev.append({"e": "exception", "msg": "%s: %s" % (type(ex).__name__, str(ex)[:200])})
+    return ev
+
+
+def zero_driving_force_relations():
+    """model level: a step evaluated at EXACTLY zero driving force (and just below) right after a step with nucleation must record a
+    zero rate, critical radius and barrier -- nothing may be carried over from the previous step"""
+    from . import kwn_drv as K
+    ev = [{"e": "init"}]
+    try:
+        for site in ("bulk", "dislocations", "grain boundaries"):
+            cfg = dict(phases=[dict(name="beta", gamma=0.05, site=site)], D=1e-16, gb=0.03, x0=0.02, calls=[(1.0, 0.5)])
+            m, th, obs = K.build(cfg)
+            m.setup()
+            x = [np.zeros(m.PBM[0].bins)]
+            Y = m.pData.copySlice(m.pData.n)
+            Y = m._calcNucleationRate(1.0, x, Y)
+            ev.append({"e": "rel", "group": "C14:zero-driving-force(model step)", "name": "%s: precondition, rate > 0 at positive driving force" % site,
+                       "c": "eq" if float(Y.nucRate[0, 0]) > 0 else "lt", "want": "eq"})
+            xe = float(th.xe(1000.0, "beta"))
+            for label, comp in (("dG = 0", xe), ("dG slightly negative", xe - 1e-6)):
+                Y.composition[0] = comp
+                Y2 = m._calcNucleationRate(2.0, x, Y)
+                for k in ("nucRate", "Rcrit", "Gcrit"):
+                    ev.append(rel("C14:zero-driving-force(model step)", "%s %s %s" % (site, label, k), float(getattr(Y2, k)[0, 0]), 0.0, "eq"))
     except Exception as ex:  # noqa
         ev.append({"e": "exception", "msg": "%s: %s" % (type(ex).__name__, str(ex)[:200])})
     return ev
